@@ -1,7 +1,7 @@
 """C02 - incremental PFI = running statistic of (mean imputed loss - original loss)."""
 import random
 
-from ..harness import Scenario, gen_cfg, ref_alpha
+from ..harness import Scenario, gen_cfg, make_long, make_phase, ref_alpha
 from ..riverlike import RealScenario, gen_real_cfg
 from ..probes import InjectedFault
 from ..explref import PfiRef, Mismatch, compare
@@ -17,7 +17,7 @@ def run_config(run, cfg, seed, tag):
         run.other_error(f"C15:construct:{type(ex).__name__}")
         return
     run.count("configs")
-    ref = PfiRef(sc.names, cfg["dyn"], ref_alpha(cfg), sc.model, sc.loss)
+    ref = PfiRef(sc.names, cfg["dyn"], ref_alpha(cfg), sc.model, sc.loss, fast=cfg["steps"] > 400)
     if cfg.get("real"):
         run.count("real-model-configs")
         ref.unique = False
@@ -79,14 +79,20 @@ def main(run):
                 "call (or decoded from model inputs for the library default imputer), the reference recomputes "
                 "contribution = mean(loss of imputed predictions) - original loss with pristine twins and the closed-form "
                 "running statistic of contributions and of squared deviations from the UPDATED estimate; compared on "
-                "every prefix (== exact mode, 1e-9*scale float mode); ignored features must have importance 0; "
+                "every prefix, also for real river models that keep learning between calls (every 12th configuration) (== exact mode, 1e-9*scale float mode); ignored features must have importance 0; "
                 "non-trivial = call with >= 2 distinct non-zero contributions, distinct by (config, step)")
     run.assumptions = ["model and loss are deterministic pure functions", "float mode uses continuous losses only"]
     run.require("ixai/explainer/pfi.py:IncrementalPFI.explain_one")
-    run.require_count("real-model-configs")
+    run.require_count("real-model-configs", "long-stream-configs", "late-informative-model-configs")
     rnd = random.Random(run.shard_seed)
     for i in range(N_CFG[run.tier]):
         cfg = gen_cfg(rnd, "pfi", exact=(i % 3 != 2))
+        if i in (40, 41) or (run.tier == "thorough" and i % 500 == 42):      # thousands of calls on one explainer (exact and float)
+            make_long(cfg, rnd, 4200 if i == 41 else rnd.choice([1100, 2100, 9000 if run.tier == "thorough" else 1300]))
+            run.count("long-stream-configs")
+        if i in (50, 51, 53, 56) or (run.tier == "thorough" and i % 300 == 50):      # model that becomes informative after ~40 observations
+            make_phase(cfg, rnd, dyn=(i == 51))
+            run.count("late-informative-model-configs")
         run_config(run, cfg, rnd.randrange(2 ** 31), f"s{run.shard[0]}c{i}")
         if i % 12 == 11:       # a real river model that keeps learning, river streams, river metrics, the library's wrappers
             rcfg = gen_real_cfg(rnd, "pfi", need_decode=True)
